@@ -506,6 +506,39 @@ func initStdGlobals(i *interpreter) {
 	if p == nil {
 		return
 	}
+	// sentinel errors of the standard library are distinct values (their
+	// packages' initialisers are not run)
+	sentinels := map[string]value{}
+	for _, pn := range []struct{ pkg, name, alias string }{
+		{"io/fs", "ErrInvalid", ""}, {"io/fs", "ErrPermission", ""}, {"io/fs", "ErrExist", ""}, {"io/fs", "ErrNotExist", ""}, {"io/fs", "ErrClosed", ""},
+		{"os", "ErrInvalid", "io/fs.ErrInvalid"}, {"os", "ErrPermission", "io/fs.ErrPermission"}, {"os", "ErrExist", "io/fs.ErrExist"},
+		{"os", "ErrNotExist", "io/fs.ErrNotExist"}, {"os", "ErrClosed", "io/fs.ErrClosed"},
+		{"io", "EOF", ""}, {"io", "ErrUnexpectedEOF", ""},
+	} {
+		sp := i.prog.ImportedPackage(pn.pkg)
+		if sp == nil {
+			continue
+		}
+		g, ok := sp.Members[pn.name].(*ssa.Global)
+		if !ok {
+			continue
+		}
+		cell, ok := i.globals[g]
+		if !ok {
+			continue
+		}
+		key := pn.pkg + "." + pn.name
+		if pn.alias != "" {
+			if v, ok := sentinels[pn.alias]; ok {
+				*cell = v
+				continue
+			}
+		}
+		v := i.newErr(pn.name, nil)
+		sentinels[key] = v
+		*cell = v
+	}
+	i.sentinels = sentinels
 	for _, n := range []string{"Stdin", "Stdout", "Stderr"} {
 		if g, ok := p.Members[n].(*ssa.Global); ok {
 			if cell, ok := i.globals[g]; ok {
@@ -804,7 +837,16 @@ func init() {
 			return strconv.Itoa(a[0].(int))
 		},
 		"strconv.FormatInt": func(fr *frame, a []value) value {
+			if x, ok := a[0].(symI); ok && asInt64(a[1]) == 10 {
+				return fr.i.ex.atomString(x.t, bvsort(64), "d64")
+			}
 			return strconv.FormatInt(a[0].(int64), int(asInt64(a[1])))
+		},
+		"strconv.FormatUint": func(fr *frame, a []value) value {
+			if x, ok := a[0].(symI); ok && asInt64(a[1]) == 10 {
+				return fr.i.ex.atomString(x.t, bvsort(64), "u64")
+			}
+			return strconv.FormatUint(a[0].(uint64), int(asInt64(a[1])))
 		},
 		"strconv.FormatBool": func(fr *frame, a []value) value {
 			if x, ok := a[0].(symB); ok {
@@ -977,6 +1019,65 @@ func init() {
 			e.addPC("(and (fp.leq " + fplit(0) + " " + r + ") (fp.lt " + r + " " + fplit(1) + "))")
 			return symF{r}
 		},
+		"math/rand.Uint32": func(fr *frame, a []value) value {
+			return symI{fr.i.ex.freshVar("randu32", bvsort(32)), types.Uint32}
+		},
+		"math/rand.Uint64": func(fr *frame, a []value) value {
+			return symI{fr.i.ex.freshVar("randu64", bvsort(64)), types.Uint64}
+		},
+		"math/rand.Int63": func(fr *frame, a []value) value {
+			e := fr.i.ex
+			r := e.freshVar("rand63", bvsort(64))
+			e.addPC("(bvsge " + r + " " + bvlit(0, 64) + ")")
+			return symI{r, types.Int64}
+		},
+		"math/rand.Int": func(fr *frame, a []value) value {
+			e := fr.i.ex
+			r := e.freshVar("randint", bvsort(64))
+			e.addPC("(bvsge " + r + " " + bvlit(0, 64) + ")")
+			return symI{r, types.Int}
+		},
+		"math/rand.Intn": func(fr *frame, a []value) value {
+			e := fr.i.ex
+			nt := toI(a[0], types.Int)
+			if e.decide("(bvsle "+nt+" "+bvlit(0, 64)+")", "Intn contract") {
+				panic(targetPanic{iface{fr.i.runtimeErrorString, "invalid argument to Intn"}})
+			}
+			r := e.freshVar("randn", bvsort(64))
+			e.addPC("(and (bvsle " + bvlit(0, 64) + " " + r + ") (bvslt " + r + " " + nt + "))")
+			return symI{r, types.Int}
+		},
+		// --- cmp (generic instantiations) ---
+		"cmp.Compare[float64]": func(fr *frame, a []value) value { return cmpCompareF(fr, a[0], a[1]) },
+		"cmp.Less[float64]": func(fr *frame, a []value) value {
+			c := cmpCompareF(fr, a[0], a[1])
+			if ci, ok := c.(symI); ok {
+				return symB{"(bvslt " + ci.t + " " + bvlit(0, 64) + ")"}
+			}
+			return c.(int) < 0
+		},
+		"cmp.Compare[string]": func(fr *frame, a []value) value {
+			noAtoms("cmp.Compare", a...)
+			return strings.Compare(a[0].(string), a[1].(string))
+		},
+		"cmp.Less[string]": func(fr *frame, a []value) value {
+			noAtoms("cmp.Less", a...)
+			return a[0].(string) < a[1].(string)
+		},
+		"cmp.Compare[int]": func(fr *frame, a []value) value {
+			if isSym(a[0]) || isSym(a[1]) {
+				x, y := toI(a[0], types.Int), toI(a[1], types.Int)
+				return symI{"(ite (bvslt " + x + " " + y + ") " + bvlit(^uint64(0), 64) + " (ite (bvsgt " + x + " " + y + ") " + bvlit(1, 64) + " " + bvlit(0, 64) + "))", types.Int}
+			}
+			x, y := a[0].(int), a[1].(int)
+			switch {
+			case x < y:
+				return -1
+			case x > y:
+				return 1
+			}
+			return 0
+		},
 		// --- time ---
 		"time.Now": func(fr *frame, a []value) value { return structure{uint64(0), int64(0), (*value)(nil)} },
 		"(time.Time).UnixNano": func(fr *frame, a []value) value {
@@ -1103,4 +1204,28 @@ func (e *explorer) concretizeAtoms(s string) string {
 		}
 	}
 	return sb.String()
+}
+
+// cmpCompareF: cmp.Compare on float64: NaN is less than any non-NaN and equal to NaN.
+func cmpCompareF(fr *frame, a, b value) value {
+	if !isSym(a) && !isSym(b) {
+		x, y := a.(float64), b.(float64)
+		xn, yn := x != x, y != y
+		switch {
+		case xn && yn:
+			return 0
+		case xn || x < y:
+			return -1
+		case yn || x > y:
+			return 1
+		}
+		return 0
+	}
+	e := fr.i.ex
+	x, y := e.abbrev(toF(a), f64), e.abbrev(toF(b), f64)
+	m1, p1, z := bvlit(^uint64(0), 64), bvlit(1, 64), bvlit(0, 64)
+	t := "(ite (and (fp.isNaN " + x + ") (fp.isNaN " + y + ")) " + z +
+		" (ite (or (fp.isNaN " + x + ") (fp.lt " + x + " " + y + ")) " + m1 +
+		" (ite (or (fp.isNaN " + y + ") (fp.gt " + x + " " + y + ")) " + p1 + " " + z + ")))"
+	return symI{t, types.Int}
 }
